@@ -52,6 +52,33 @@ func main() {
 				}
 			}
 		}
+	case "sib":
+		// debugging aid: compare the port's functions with strconv's
+		c := newCtx("sib", "quick")
+		p := mustLoad(c, loadOpts{}, "./benchfmt/internal/bytesconv", "strconv")
+		pairs := sibPairs(p, "benchfmt/internal/bytesconv", "strconv")
+		for _, pr := range pairs {
+			if len(os.Args) > 2 && os.Args[2] != pr.name {
+				continue
+			}
+			diff, n, why := sibCompare(pr.a, pr.b, sibNorm{[]string{modPath + "/benchfmt/internal/bytesconv"}}, sibNorm{[]string{"strconv"}}, 20000)
+			switch {
+			case why != "":
+				fmt.Printf("%-28s UNDECIDED %s\n", pr.name, why)
+			case diff != "":
+				fmt.Printf("%-28s DIFFER (%d records) %s\n", pr.name, n, diff)
+			default:
+				fmt.Printf("%-28s agree (%d records)\n", pr.name, n)
+			}
+			if len(os.Args) > 3 {
+				ta, _ := sibTables(pr.a, sibNorm{[]string{modPath + "/benchfmt/internal/bytesconv"}}, 20000)
+				for k, rs := range ta {
+					for _, r := range rs {
+						fmt.Println("  A", k, r)
+					}
+				}
+			}
+		}
 	case "check":
 		if len(os.Args) < 3 {
 			usage()
